@@ -18,7 +18,13 @@ BatchJson(c) == [t |-> "batch", era |-> c.era, method |-> "", hasId |-> FALSE, i
                  members |-> c.members, order |-> c.order]
 ASSUME PrintT(ToJson([shapes |-> Cardinality(ShapeSet), batches |-> Cardinality(BatchSet(MaxBatch)),
                       shapeLeads |-> Cardinality(ShapeLeads), batchLeads |-> Cardinality(BatchLeads)]))
+HttpShapeJson(c) == [t |-> "httpshape", era |-> c.era, method |-> c.method, hasId |-> c.hasId, idc |-> c.idc, params |-> c.params,
+                     members |-> <<>>, order |-> <<>>, json |-> c.json]
+HttpBatchJson(c) == [t |-> "httpbatch", era |-> c.era, method |-> "", hasId |-> FALSE, idc |-> "", params |-> "",
+                     members |-> c.members, order |-> <<>>, json |-> c.json]
 ASSUME ndJsonSerialize("cases.ndjson", SetToSeq({ShapeJson(c) : c \in ShapeSet}) \o SetToSeq({BatchJson(c) : c \in BatchSet(MaxBatch)}))
+ASSUME ndJsonSerialize("httpcases.ndjson", SetToSeq({HttpShapeJson(c) : c \in HttpShapes}) \o SetToSeq({HttpBatchJson(c) : c \in HttpBatchSet(MaxBatch)}))
+ASSUME PrintT(ToJson([httpShapes |-> Cardinality(HttpShapes), httpBatches |-> Cardinality(HttpBatchSet(MaxBatch))]))
 \* vacuity: every mandated code class occurs
 ASSUME \A code \in {0, -32600, -32601, -32602} : \E c \in ShapeSet : c.hasId /\ Mandated(c) = {code}
 =============================================================================
